@@ -1,11 +1,16 @@
 #include "gen.h"
 
 #include <algorithm>
+#include <cmath>
 #include <set>
 
 namespace {
 H3Index PENT[16][12];
 H3Index RES0[122];
+struct IcosaEdge {
+    double m[3], u[3], n[3];  // midpoint, unit tangent, unit normal (all on/tangent to the unit sphere)
+};
+std::vector<IcosaEdge> ICOSA_EDGES;
 double EDGE_RADS[16];
 bool worldReady = false;
 const double PI = 3.14159265358979323846;
@@ -40,6 +45,7 @@ std::vector<H3Index> refChildren(H3Index p, int res) {
     return out;
 }
 double wrapLng(double lng) {
+    if (!std::isfinite(lng) || fabs(lng) > 1e6) return lng;  // special values are passed through as they are
     while (lng > PI) lng -= 2 * PI;
     while (lng < -PI) lng += 2 * PI;
     return lng;
@@ -55,6 +61,39 @@ void genInitWorld() {
         EDGE_RADS[r] = km / 6371.007180918475;
     }
     REF.getRes0Cells(RES0);
+    {
+        // the 12 resolution-0 pentagons sit on the icosahedron's vertices; its 30 edges join the vertex pairs
+        // 63.43 degrees apart
+        double v[12][3];
+        for (int i = 0; i < 12; i++) {
+            LatLng g = {0, 0};
+            REF.cellToLatLng(PENT[0][i], &g);
+            v[i][0] = cos(g.lat) * cos(g.lng);
+            v[i][1] = cos(g.lat) * sin(g.lng);
+            v[i][2] = sin(g.lat);
+        }
+        for (int i = 0; i < 12; i++)
+            for (int j = i + 1; j < 12; j++) {
+                double dot = v[i][0] * v[j][0] + v[i][1] * v[j][1] + v[i][2] * v[j][2];
+                if (fabs(acos(std::max(-1.0, std::min(1.0, dot))) - 1.1071487177940904) > 0.01) continue;
+                IcosaEdge e;
+                double ml = 0, ul = 0;
+                for (int k = 0; k < 3; k++) {
+                    e.m[k] = v[i][k] + v[j][k];
+                    e.u[k] = v[j][k] - v[i][k];
+                    ml += e.m[k] * e.m[k];
+                    ul += e.u[k] * e.u[k];
+                }
+                for (int k = 0; k < 3; k++) {
+                    e.m[k] /= sqrt(ml);
+                    e.u[k] /= sqrt(ul);
+                }
+                e.n[0] = e.m[1] * e.u[2] - e.m[2] * e.u[1];
+                e.n[1] = e.m[2] * e.u[0] - e.m[0] * e.u[2];
+                e.n[2] = e.m[0] * e.u[1] - e.m[1] * e.u[0];
+                ICOSA_EDGES.push_back(e);
+            }
+    }
     worldReady = true;
 }
 double edgeLenRads(int res) {
@@ -68,6 +107,47 @@ LatLng Gen::randPoint() {
     g.lat = asin(r.uniform(-1, 1));
     g.lng = r.uniform(-PI, PI);
     return g;
+}
+LatLng Gen::nearIcosaEdge() {
+    if (ICOSA_EDGES.empty()) return randPoint();
+    const IcosaEdge &e = ICOSA_EDGES[r.below(ICOSA_EDGES.size())];
+    double t = r.chance(0.7) ? r.uniform(-0.012, 0.012) : r.uniform(-0.5, 0.5);
+    double d = pow(10.0, r.uniform(-9, -3)) * (r.chance(0.5) ? 1 : -1);
+    if (r.chance(0.1)) d = 0;
+    double p[3], l = 0;
+    for (int k = 0; k < 3; k++) {
+        p[k] = e.m[k] + t * e.u[k] + d * e.n[k];
+        l += p[k] * p[k];
+    }
+    LatLng g;
+    g.lat = asin(p[2] / sqrt(l));
+    g.lng = atan2(p[1], p[0]);
+    return g;
+}
+Op Gen::primerFor(const Op &op) {
+    Op pr = op;
+    pr.share = 0;
+    pr.fault = FaultPlan();
+    pr.tag = "primer";
+    if (pr.dbls.size() >= 2 && std::isfinite(pr.dbls[0]) && std::isfinite(pr.dbls[1])) {
+        // a point 0.01 .. 0.3 rad away (for latLngToCell also at another resolution half of the time)
+        double ang = r.uniform(0, 2 * PI), dist = r.chance(0.5) ? r.uniform(0.01, 0.08) : r.uniform(0.08, 0.3);
+        pr.dbls[0] = std::max(-PI / 2, std::min(PI / 2, pr.dbls[0] + dist * sin(ang)));
+        pr.dbls[1] = wrapLng(pr.dbls[1] + dist * cos(ang) / std::max(0.05, cos(pr.dbls[0])));
+        if (pr.fn == FN_latLngToCell && !pr.ints.empty() && r.chance(0.5)) pr.ints[0] = (int64_t)r.below(16);
+    } else if (!pr.cells.empty() && pr.loops.empty() && pr.cells.size() <= 2) {
+        H3Index c = pr.cells[0];
+        double u = r.unit();
+        if (u < 0.4)
+            pr.cells[0] = neighborOf(c);
+        else if (u < 0.7)
+            pr.cells[0] = r.chance(0.5) ? pentagon((int)((c >> 52) & 0xF)) : randCell((int)((c >> 52) & 0xF));
+        else
+            pr.cells[0] = anyCell();
+    } else if (!pr.ints.empty() && pr.cells.empty() && pr.loops.empty()) {
+        pr.ints[0] += r.chance(0.5) ? 1 : -1;
+    }
+    return pr;
 }
 LatLng Gen::centerOf(H3Index c) {
     LatLng g = {0, 0};
@@ -799,6 +879,30 @@ std::vector<H3Index> Gen::cellSet(int maxCells, std::string &tag) {
         tag = "globe-res" + std::to_string(gres) + "-minus-" + std::to_string(gaps) + "-gaps ";
         return cells;
     }
+    if (r.chance(0.05)) {
+        // sparse sets of cells whose boundaries carry distortion vertices (pentagons of a Class III resolution have
+        // ten vertices, cells crossing an icosahedron edge up to eight): more edges per cell than the six a
+        // hexagon has, which is what fixed "six per cell" capacity estimates get wrong
+        std::set<H3Index> acc;
+        int npent = (int)r.range(5, 12);
+        std::vector<int> order;
+        for (int i = 0; i < 12; i++) order.push_back(i);
+        r.shuffle(order);
+        for (int i = 0; i < npent; i++) acc.insert(PENT[res][order[i]]);
+        int extra = (int)r.range(0, 24);
+        for (int i = 0, tries = 0; i < extra && tries < 400; tries++) {
+            H3Index c = r.chance(0.5) ? nearPentagon(res, 2) : randCell(res);
+            CellBoundary cb;
+            if (REF.cellToBoundary(c, &cb) == E_SUCCESS && cb.numVerts > 6) {
+                acc.insert(c);
+                i++;
+            }
+        }
+        cells.assign(acc.begin(), acc.end());
+        if (r.chance(0.7)) r.shuffle(cells);
+        tag = "distorted-singles-" + std::to_string(cells.size()) + " ";
+        return cells;
+    }
     if (r.chance(0.06)) {
         // archipelago: many small components (single cells, 1-disks, rings with a one-cell hole), more outer
         // loops than any small fixed-size scratch array would hold
@@ -1026,11 +1130,15 @@ Op Gen::anyOp(int scale, int forcedFn) {
         case FN_latLngToCell: {
             LatLng g = randPoint();
             if (r.chance(0.3)) g = centerOf(anyCell());
+            bool edgy = r.chance(0.14);
+            if (edgy) g = nearIcosaEdge();
             if (r.chance(0.05)) g.lat = r.chance(0.5) ? NAN : (r.chance(0.5) ? INFINITY : -INFINITY);
             if (r.chance(0.03)) g.lng = r.chance(0.5) ? NAN : INFINITY;
             if (r.chance(0.05)) g.lng = r.uniform(-20, 20);
             op.dbls = {g.lat, g.lng};
             op.ints = {resArg()};
+            if (edgy && r.chance(0.75)) op.ints[0] = 13 + (int64_t)r.below(3);
+            if (edgy) op.tag = "near-icosa-edge";
             break;
         }
         case FN_maxGridDiskSize:
@@ -1381,12 +1489,34 @@ bool Gen::catalogueC17(int64_t idx, Op &op) {
 }
 
 namespace {
-const int64_t C16_CAT_PENT = 16 * 12 * 3, C16_CAT_RINGS = 16 * 3, C16_CAT_POLAR = 6 * 3 * 4, C16_CAT_GLOBE = 8;
+const int64_t C16_CAT_PENT = 16 * 12 * 3, C16_CAT_RINGS = 16 * 3, C16_CAT_POLAR = 6 * 3 * 4, C16_CAT_GLOBE = 8,
+              C16_CAT_PENTSET = 16 * 2;
 }
-int64_t Gen::catalogueC16Size() { return C16_CAT_PENT + C16_CAT_RINGS + C16_CAT_POLAR + C16_CAT_GLOBE; }
+int64_t Gen::catalogueC16Size() {
+    return C16_CAT_PENT + C16_CAT_RINGS + C16_CAT_POLAR + C16_CAT_GLOBE + C16_CAT_PENTSET;
+}
 bool Gen::catalogueC16(int64_t idx, Op &op) {
     op = Op();
     if (idx < 0 || idx >= catalogueC16Size()) return false;
+    if (idx >= C16_CAT_PENT + C16_CAT_RINGS + C16_CAT_POLAR + C16_CAT_GLOBE) {
+        // the twelve pentagons of a resolution as one sparse set (12 components, 5 or 10 vertices each), alone and
+        // together with one neighbour each
+        int j = (int)(idx - C16_CAT_PENT - C16_CAT_RINGS - C16_CAT_POLAR - C16_CAT_GLOBE), pres = j / 2;
+        op.fn = FN_cellsToLinkedMultiPolygon;
+        for (int p = 0; p < 12; p++) {
+            op.cells.push_back(PENT[pres][p]);
+            if (j % 2) {
+                std::vector<H3Index> d = refDisk(PENT[pres][p], 1);
+                for (auto x : d)
+                    if (x != PENT[pres][p]) {
+                        op.cells.push_back(x);
+                        break;
+                    }
+            }
+        }
+        op.tag = j % 2 ? "catalogue:all-pentagons+neighbour" : "catalogue:all-pentagons";
+        return true;
+    }
     if (idx >= C16_CAT_PENT + C16_CAT_RINGS + C16_CAT_POLAR) {
         // every cell of resolution 0 / 1 except 1..4 single-cell gaps: only clockwise loops remain
         int j = (int)(idx - C16_CAT_PENT - C16_CAT_RINGS - C16_CAT_POLAR), gres = j / 4, gaps = 1 + j % 4;
